@@ -386,4 +386,44 @@ pub fn run_c11(out: &mut Out, seed: u64, thorough: bool) {
             }
         }
     }
+    // 3. steps across the interrupt entry: programs with the key interrupt enabled that visit the end
+    //    word and the `int:` word of every opcode page; the key is pressed at every clock cycle and a
+    //    step is issued (on a copy) at each of the following edges
+    let progs = if thorough { 12 } else { 2 };
+    for pi in 0..progs {
+        let (img, spin) = crate::c_isa::c04_program(&mut rng, pi % 2 == 1);
+        let load = format!("load 16 255 {}", hexs(&img));
+        // edges until the final spin loop is reached (uninterrupted)
+        let mut probe = Sess::new();
+        probe.apply("new");
+        probe.apply(&load);
+        let mut total = 0u32;
+        while total < 6000 {
+            probe.m.raw_mut().trigger_clock_edge();
+            total += 1;
+            if probe.m.is_instruction_done() && *probe.m.registers().get(emulator_2a_lib::machine::RegisterNumber::R3) == spin {
+                break;
+            }
+        }
+        if total >= 6000 {
+            out.count("int-step-program-skipped");
+            continue;
+        }
+        let stride = if thorough || pi == 0 { 1 } else { 3 };
+        let mut t = 0u32;
+        while t <= total {
+            let mut s = Sess::new();
+            run_line(out, &mut s, "new");
+            run_line(out, &mut s, &load);
+            run_line(out, &mut s, &format!("edges {}", t));
+            run_line(out, &mut s, "irq");
+            for _ in 0..45 {
+                run_line(out, &mut s, "spec.asmstep");
+                run_line(out, &mut s, "edge");
+            }
+            run_line(out, &mut s, "d");
+            out.count("int-step-trigger");
+            t += stride;
+        }
+    }
 }
